@@ -164,6 +164,7 @@ def _work(job):
                 dt = 0.0
             out["obligations"].append({"name": ob.name, "kind": ob.kind, "status": st, "backend": be, "time_s": round(dt, 4),
                                        "where": ob.where, "text": ob.meta.get("text", ""), "model": mtxt, "vc": keys[i][:12],
+                                       "has_sums": (st == "refuted" and "bigsum<" in ob.goal.sexpr()),
                                        "smt": (ob.goal.sexpr()[:600] if len(out["obligations"]) < 2 else None)})
     except Exception as e:
         out["status"] = "crash"
@@ -417,6 +418,11 @@ def run_property(pid, tier="quick", seed=0, update_ledger=False, verbose=False):
         rp = os.path.join(ROOT, "replays", f"{pid}_{i}.json")
         replay = {"property": pid, "function": fn, "obligation": nm, "where": o.get("where"), "clause": o.get("text"),
                   "solver_output": o.get("model"), "replayed": False}
+        if o.get("has_sums"):
+            replay["caveat"] = ("the verification condition contains finite sums, which the solvers treat as uninterpreted "
+                                "functions with congruence only: the obligation was discharged on the unchanged tree and is not "
+                                "discharged now, but a solver model that relies on particular sum values need not correspond "
+                                "to an execution")
         suffix = " no-failing-input-found"
         try:
             from .replay import try_replay
